@@ -201,7 +201,7 @@ def run_slice(ctx, exe, units, idx, tag):
     up = os.path.join(ctx.work, "units_%s_%d.json" % (tag, idx))
     json.dump(units, open(up, "w"))
     lp = os.path.join(ctx.work, "log_%s_%d.ndjson" % (tag, idx))
-    sums, deaths = vlib.run_batches(ctx, exe, ["--units", up], len(units), lp, timeout=1700, max_deaths=40)
+    sums, deaths = vlib.run_batches(ctx, exe, ["--units", up], len(units), lp, timeout=1700, max_deaths=max(40, len(units) // 3))
     return lp, sums, deaths
 
 
